@@ -1,8 +1,20 @@
+import re
 from io import TextIOBase
 from xml.sax.saxutils import XMLGenerator
 
+from xsdata.exceptions import XmlWriterError
 from xsdata.formats.dataclass.serializers.config import SerializerConfig
 from xsdata.formats.dataclass.serializers.mixins import XmlWriter
+
+ILLEGAL_XML_CHARS = re.compile(
+    "[^\x09\x0a\x0d\x20-\ud7ff\ue000-\ufffd\U00010000-\U0010ffff]"
+)
+
+
+def validate_xml_chars(data: str) -> None:
+    """Raise an error if the data can't be part of a xml 1.0 document."""
+    if ILLEGAL_XML_CHARS.search(data):
+        raise XmlWriterError(f"Invalid xml characters in `{data!r}`")
 
 
 class XmlEventWriter(XmlWriter):
@@ -108,6 +120,7 @@ class XmlEventWriter(XmlWriter):
         Args:
             data: The element text or tail content
         """
+        validate_xml_chars(data)
         if "\r" not in data:
             self.handler.characters(data)
             return
@@ -117,3 +130,10 @@ class XmlEventWriter(XmlWriter):
                 self.handler.ignorableWhitespace("&#13;")
             if chunk:
                 self.handler.characters(chunk)
+
+    def start_element(self, name: tuple[str, str], qname: str, attrs: dict) -> None:
+        """Start element notification receiver, validates the attribute values."""
+        for value in attrs.values():
+            validate_xml_chars(value)
+
+        super().start_element(name, qname, attrs)
